@@ -546,6 +546,19 @@ def _f69(vio):
     return False
 
 
+@mechanism("F70-merge-tuple-with-record")
+def _f70(vio):
+    from vlib import model
+    if vio.get("kind") not in ("wrong-value", "value-differs") or _op_of(vio).get("op") != "mergemany":
+        return False
+    kinds = set()
+    for d in _layouts(vio):
+        for _p, n in model.walk(d):
+            if n["c"] == "RecordArray" and n["contents"]:
+                kinds.add("tuple" if n["keys"] is None else "named")
+    return kinds == {"tuple", "named"}
+
+
 @mechanism("F10-reduce-nonlocal")
 def _f10(vio):
     rep = _report(vio)
